@@ -24,7 +24,7 @@ pub fn def() -> CheckDef {
         runs_quick: 250_000,
         runs_thorough: 5_000_000,
         rule: "seeded interleavings: history h1 on an instance, clone at a seeded point (mid-block for byte-level types), then operations on original and clone interleaved operation by operation by the scheduler; or two unrelated instances (different key/IV) interleaved; compared with sequential replays on fresh instances. All cloneable public types (12 block-mode types, 7 byte-stream aliases and cores, BufEncryptor/BufDecryptor); BeltCtr/BeltCtrCore (not Clone) only as unrelated instances. distinct = distinct (type, block size, cipher, width, clone point, interleaving pattern, op forms); non-trivial = >= 1 data op on each actor after the clone",
-        required_probes: &["clone_mid_block", "ctr_core_clone", "three_alternations", "unrelated_instances", "buf_clone", "belt_unrelated", "cts_clone", "second_clone", "clone_from", "unrelated_same_iv"],
+        required_probes: &["clone_mid_block", "ctr_core_clone", "three_alternations", "unrelated_instances", "buf_clone", "belt_unrelated", "cts_clone", "second_clone", "clone_from", "unrelated_same_iv", "replayed_with_other_buffer_contents"],
         r#gen,
         exec,
         components: "real code: all stateful public types of the nine crates incl. their Clone impls (CtrCore's is hand-written); stub: block cipher in most runs, real ciphers in the rest; scheduler: the op list itself (call-granular interleaving is the whole space: every mutating method takes &mut self and the crates forbid unsafe); no reference model",
@@ -248,6 +248,21 @@ fn exec(scn: &Scn, ctx: &mut Ctx) -> Verdict {
                     i, op.k, op.n, op.via, a, if a == 0 { "the original" } else if unrelated { "the second instance" } else { "a clone" }, what
                 );
             }
+        }
+        if a == 0 {
+            // second replay of the original's lineage into differently pre-filled output buffers
+            let mut r2 = mk(7, second[a]).unwrap();
+            for &i in &lineage[a] {
+                let op = &scn.ops[i];
+                let n = op.n as usize * r2.unit();
+                let inp = if op.k == "data" { op_input(scn, i, n) } else { Vec::new() };
+                let got = r2.step(op, &inp, scn.dirt(i + 4321, inp.len()));
+                let (who, inter) = outs[i].as_ref().unwrap();
+                if *who == a && &got != inter {
+                    violation!("depends_on_output_buffer", "op {} ({} n={} via={}): the result depends on what the output buffer held before the call (same instance history, same input)", i, op.k, op.n, op.via);
+                }
+            }
+            ctx.probe("replayed_with_other_buffer_contents");
         }
         if r.snapshot() != snaps[a] {
             violation!(if a == 0 { "original_state" } else { "clone_state" }, "final observable state of actor {} differs from its sequential replay", a);
